@@ -718,7 +718,7 @@ def gen_edits(rng, w0, pool, per_kind):
 def gen_cases(ctx, scale=1.0):
     rng = ctx.rng
     cases = []
-    nt = int((300 if ctx.quick else 4000) * scale)
+    nt = int((300 if ctx.quick else 3000) * scale)
     for i in range(nt):
         alg = "sha512" if rng.random() < 0.15 else "sha256"
         pool = [rbytes(rng, rng.choice(SIZES)).hex() for _ in range(rng.randrange(2, 5))]
@@ -847,7 +847,7 @@ def search(ctx):
     from .. import pool
     for s in range(1, 4):
         sub = core.Ctx(ID, "quick", ctx.seed + 7919 * s)
-        cases = gen_cases(sub, scale=2.0)
+        cases = gen_cases(sub, scale=0.7)
         res = pool.run(MOD, "impl", cases, timeout=120)
         ctx.search_log.append("seed %d: %d cases, oracle only" % (sub.seed, len(cases)))
         for c, r in zip(cases, res):
